@@ -334,6 +334,9 @@ func caseSig(cfg replayCfg, g group, r caseResult) map[string]any {
 	if g.Act.Via != "" {
 		sig["via"] = g.Act.Via
 	}
+	if g.From.Fault != "" && g.From.Fault != "none" {
+		sig["fault"] = g.From.Fault // the failing case needs this fault mode of the environment
+	}
 	sig["after_shutdown"] = g.From.Down
 	cancelledBefore := false
 	for _, op := range g.Path {
